@@ -29,6 +29,7 @@ type c11Case struct {
 	Failing int          `json:"failing,omitempty"` // blocks made to fail
 	Entry  string        `json:"entry,omitempty"`   // "" = md, "root" = From-Root with WithMassive
 	NilCtx bool          `json:"nilCtx,omitempty"`  // WithMassive(nil): documented to mean context.Background()
+	SingleP bool         `json:"singleP,omitempty"` // the worker process was started with GOMAXPROCS=1 ("every schedule" includes a one-CPU machine)
 }
 
 func init() { registerReplay("c11", c11Check) }
@@ -57,6 +58,8 @@ func c11Check(c c11Case) string {
 	mode := "plain"
 	if c.Race {
 		mode = "race"
+	} else if c.SingleP {
+		mode = "single"
 	}
 	res := pool(mode).Run(&cs)
 	head := fmt.Sprintf("op=%s entry=%s doc=%q faults=%+v cancel=%+v sched=%+v race=%v\n", c.Op, c.Entry, truncate(string(c.Doc), 300), c.Faults, c.Cancel, c.Sched, c.Race)
@@ -165,13 +168,16 @@ func c11Record(col *collector, c c11Case) {
 	if c.Race {
 		cl = append(cl, "race-build")
 	}
+	if c.SingleP {
+		cl = append(cl, "process-with-one-P")
+	}
 	for p := range c.Sched.Hook {
 		cl = append(cl, "hook:"+p)
 	}
 	cl = append(cl, fmt.Sprintf("gomaxprocs:%d", c.Sched.GOMAXPROCS))
 	inside := c.Cancel.Kind == "atOffset" && c.Cancel.K > 0 && c.Cancel.K < len(c.Doc)
 	nontrivial := c.Failing >= 3 || inside || c.Faults.ReaderFailAt >= 1 || c.Faults.WriterFailAt >= 1 || c.Faults.CallbackFailAt >= 1 || c.Cancel.Kind == "atWrite" || c.Cancel.Kind == "atCallback" || c.Cancel.Kind == "afterDelay"
-	col.eval(nontrivial, hash64(string(c.Doc), fmt.Sprint(c.Op, c.Exts, c.Strict, c.Pre, c.Faults, c.Cancel, c.Sched, c.Race, c.Entry, c.NilCtx)), cl...)
+	col.eval(nontrivial, hash64(string(c.Doc), fmt.Sprint(c.Op, c.Exts, c.Strict, c.Pre, c.Faults, c.Cancel, c.Sched, c.Race, c.Entry, c.NilCtx, c.SingleP)), cl...)
 	col.sample(func() any {
 		return map[string]any{"doc": truncate(string(c.Doc), 200), "op": c.Op, "faults": c.Faults, "cancel": c.Cancel, "sched": c.Sched, "race": c.Race}
 	})
@@ -281,7 +287,11 @@ func c11Gen(race bool) *rapid.Generator[c11Case] {
 			}
 		}
 		c.NilCtx = rapid.IntRange(0, 9).Draw(t, "nilCtx") == 0
+		c.SingleP = !race && rapid.IntRange(0, 7).Draw(t, "singleP") == 0
 		c.Sched = genSched(t)
+		if c.SingleP {
+			c.Sched.GOMAXPROCS = 0 // keep the single P the process started with
+		}
 		if rapid.Bool().Draw(t, "handleWait") {
 			if c.Sched.Hook == nil {
 				c.Sched.Hook = map[string]ops.HookAct{}
